@@ -251,6 +251,10 @@ pub fn execute(program: &Program, mode: &mut Mode, budget_mult: usize) -> Result
 
     let mut steps = 0usize;
     loop {
+        if sys.blocked.len() >= 2 {
+            // two threads already hang: every further request would cost another watchdog period and tell nothing new
+            break;
+        }
         let ready = step_ready(next_step, &tr, &step_req, &sys);
         let view = sys.view(ready == Some(true));
         let choice = match mode.choose(&view)? {
@@ -470,7 +474,7 @@ pub fn execute(program: &Program, mode: &mut Mode, budget_mult: usize) -> Result
     if !crate::entropy::wait_wild_threads(2000) {
         *tr.probes.entry("unscheduled-thread-still-alive-at-quiescence".into()).or_default() += 1;
     }
-    if !tr.crashed && !tr.exited && program.final_probe {
+    if !tr.crashed && !tr.exited && program.final_probe && sys.blocked.is_empty() {
         let mut n = 0;
         tr.final_texts = texts.clone();
         let battery = if program.final_battery { final_battery(&texts) } else { final_battery(&texts).into_iter().filter(|(m, _)| m == "textDocument/formatting").collect() };
